@@ -273,8 +273,10 @@ class UdpRig:
     TIMEOUT = 0.02
     synchronous = False     # what the endpoint's getData() returned is the truth, whatever was injected
 
-    def __init__(self, ctx):
+    def __init__(self, ctx, ip="127.0.0.1", buflen=None):
         self.ctx = ctx
+        self.ip = ip                # how the caller writes the loopback address: dotted quad or host name
+        self.buflen = buflen        # None: the endpoints' default receive buffer (1024 bytes)
         self.eps = {}
         self.peers = {}
         self.reserve = {}
@@ -300,10 +302,12 @@ class UdpRig:
             res = self._sock()          # holds the receive port until the library binds it
             self.reserve[n] = res
             self.rxport[n] = res.getsockname()[1]
-            sut(hub.newComPort, n, "UDP", "127.0.0.1", self.rxport[n], peer.getsockname()[1], self.TIMEOUT)
+            sut(hub.newComPort, n, "UDP", self.ip, self.rxport[n], peer.getsockname()[1], self.TIMEOUT)
             ep = sut(hub.getCom, n)
             if ep is None:
                 raise Violation("newComPort(%r, 'UDP', ...) did not register an endpoint" % n)
+            if self.buflen is not None:
+                sut(ep.setBufferLen, int(self.buflen))
             self.eps[n] = ep
             self._wrap(n, ep, log)
         for n, o in zip(names, opens):
@@ -346,9 +350,18 @@ class UdpRig:
         if payload is None:
             return
         ep = self.eps[name]
+        self.confirmed = None
         if ep.open and ep.comm_handle is not None:
             self.inj.sendto(payload.encode("utf-8"), ("127.0.0.1", self.rxport[name]))
             self.injected[name] += 1
+            # wait (without consuming anything) until the datagram is readable on the endpoint's own socket: from then
+            # on "it had not arrived yet" is no explanation for a receive that yields nothing
+            try:
+                r, _, _ = select.select([ep.comm_handle], [], [], 2.0)
+            except (OSError, ValueError):
+                r = []
+            if r and payload != "":
+                self.confirmed = (name, payload)
 
     def _drain(self, peer, want, deadline):
         got = []
@@ -481,9 +494,13 @@ def _check_events(model, log, spin_k, idx, op, flags):
     return flags
 
 
-def _payload(mode, counter):
+def _payload(mode, counter, buflen=1024):
     if mode == "msg":
         return "m%d" % counter
+    if mode == "fit":
+        # a message that fills the endpoint's receive buffer exactly (bufferLen bytes): still one whole message
+        m = "m%d" % counter
+        return m + "x" * (int(buflen) - len(m))
     if mode == "empty":
         return ""
     if mode == "none":
@@ -603,7 +620,7 @@ def execute(n_ep, opens, ops, rig):
                 fed = None
                 if a in eps:
                     msg_count += 1
-                    fed = _payload(op[2], msg_count)
+                    fed = _payload(op[2], msg_count, getattr(rig, "buflen", None) or 1024)
                     rig.feed(a, fed)
                     fed_any = True
                 else:
@@ -616,6 +633,9 @@ def execute(n_ep, opens, ops, rig):
                 if rig.synchronous and fed is not None and model.open[a] and not rx:
                     raise Violation("op %d %r: message %r was waiting on the open endpoint %r but getData(%r) did "
                                     "not receive it" % (idx, op, fed, a, a))
+                if getattr(rig, "confirmed", None) == (a, fed) and model.open[a] and not any(e[2] is not None for e in rx):
+                    raise Violation("op %d %r: the datagram %r was readable on the open UDP endpoint %r (confirmed on its "
+                                    "socket before the call) but getData(%r) received nothing" % (idx, op, fed[:40], a, a))
                 # the return value of hub.getData is not part of the property text (neither for a message nor for
                 # "no data"): it is deliberately not checked
             elif kind == "spin":
@@ -628,7 +648,7 @@ def execute(n_ep, opens, ops, rig):
                     row = feed[it] if it < len(feed) else ()
                     for j, n in enumerate(names):
                         msg_count += 1
-                        pl = _payload(row[j] if j < len(row) else "none", msg_count)
+                        pl = _payload(row[j] if j < len(row) else "none", msg_count, getattr(rig, "buflen", None) or 1024)
                         rig.feed(n, pl)
                         if pl is not None:
                             waiting.append((n, pl))
@@ -873,7 +893,7 @@ def c_state_graph(case, ctx):
 # clause (c): random histories to depth 60, 1..4 endpoints, fault drawn at every receive position
 # ------------------------------------------------------------------------------------------
 
-_MODES = ("msg", "msg", "msg", "none", "none", "empty")
+_MODES = ("msg", "msg", "msg", "none", "none", "empty", "fit")
 _HANDLES = (0, 1, 2) * 4 + (None,)
 _KINDS = (("recvruled",) * 5 + ("fwd",) * 5 + ("delrule",) * 3 + ("sink",) * 3 + ("recv",) * 3 + ("src",) * 2 +
           ("spin",) * 2 + ("del", "send", "open"))
@@ -945,7 +965,11 @@ def histories(draw, udp=False):
             regs.append(["fwd", valid[i], valid[j]] if t == 0 else [("sink", "src")[t - 1], valid[i], x % 3])
         ops = regs + ops
     opens = draw(st.lists(st.sampled_from([True, True, True, False]), min_size=n_ep, max_size=n_ep))
-    return {"n_ep": n_ep, "open": opens, "ops": ops}
+    case = {"n_ep": n_ep, "open": opens, "ops": ops}
+    if udp:
+        case["ip"] = draw(st.sampled_from(["127.0.0.1", "127.0.0.1", "localhost"]))
+        case["buflen"] = draw(st.sampled_from([None, None, 64, 16]))
+    return case
 
 
 RANDOM_CASES = histories()
@@ -980,7 +1004,9 @@ def c_udp(case, ctx):
         if op[0] in ("close", "closeall"):
             ctx.skip("UDPObject.closeCom is outside this property (ENOTCONN on Linux)")
     flags, model = execute(case["n_ep"], case["open"][:case["n_ep"]], case["ops"] + probe_ops(case["n_ep"]),
-                           UdpRig(ctx))
+                           UdpRig(ctx, case.get("ip", "127.0.0.1"), case.get("buflen")))
+    ctx.label("udp address written as %s" % case.get("ip", "127.0.0.1"))
+    ctx.label("receive buffer %s" % (case.get("buflen") or "default"))
     _label_history(case, flags, model, ctx)
 
 
